@@ -299,7 +299,7 @@ def regen_facts(out, with_lock):
 SYNTAX_ERR = ['a(', '[a', 'a{2,1}', '*a', '\\', '(?=a)', 'a{,3}', '[z-a]', '\\8', 'a)']
 UNSUPPORTED = ['^a', 'a$', '\\bfoo', '(?i)a', 'a*?', '\\p{Greek}', '\\A', '(?s).']
 KINDS = ['token_type', 'pattern_order', 'la_presence', 'la_polarity', 'la_pattern', 'transition',
-         'mode_name', 'pattern_text', 'mode_order', 'mode_count', 'mode_twin']
+         'mode_name', 'pattern_text', 'mode_order', 'mode_count', 'mode_twin', 'pattern_count']
 FILLER = ['a', 'b', 'x', '\u00e9', '\u20ac', '\U0001F600', '\u00df', '\u4e2d']
 
 
@@ -443,6 +443,16 @@ def one_field_variant(rng, cfg, kind):
         c[i], c[j] = c[j], c[i]
     elif kind == 'mode_twin':
         add_twin_mode(rng, c)
+    elif kind == 'pattern_count':
+        # the same mode with trailing patterns appended or removed: one list is a strict prefix of the other
+        if len(pats) >= 2 and rng.random() < 0.4:
+            del pats[-rng.randint(1, min(2, len(pats) - 1)):]
+        else:
+            used = set(q['t'] for q in pats) | set(t for t, _ in m['transitions'])
+            for _ in range(rng.randint(1, 2)):
+                t = rng.choice([t for t in range(0, 40) if t not in used])
+                used.add(t)
+                pats.append({'p': rng.choice(['a', 'b', 'c', '[abc]', 'x', '-', '[a-z]+', '.']), 't': t})
     elif kind == 'mode_count':
         if len(c) >= 2 and rng.random() < 0.4:
             c.pop()
@@ -625,6 +635,23 @@ def fixed_histories():
     wide = [M('W', [P('a', 4294967296 + 6), P('b', 3)], [])]
     seq += [('base', wide), ('base', base), ('variant:mode_count', two), ('base', wide)]
     hist('fixed_every_failure', seq)
+    # growing and shrinking pattern lists: every list is a strict prefix of the next one (a key that looks at a
+    # bounded number of patterns, or an equality that stops at the shorter list, confuses them), in one mode and in
+    # the second of two modes
+    def prefix_cfg(n, second):
+        pats = [P('k%d;' % i, i + 1) for i in range(n)]
+        if second:
+            return [M('A', [P('go', 30), P('k0;', 1)], [[30, 1]]), M('B', pats, [])]
+        return [M('M', pats, [])]
+    for second in (False, True):
+        seq = []
+        for n in list(range(1, 10)) + list(range(8, 0, -1)) + [5, 9, 4, 7, 3]:
+            seq.append(('variant:pattern_count', prefix_cfg(n, second)))
+        steps = []
+        for i, (role, cfg) in enumerate(seq):
+            steps.append({'modes': cfg, 'inputs': ['gok0;k1;k2;k3;k4;k5;k6;k7;k8;', 'k8;k4;gok3;k5;'], 'role': role, 'family': 0,
+                          'uncached_first': i % 4 == 3})
+        hs.append({'name': 'fixed_prefix_lists%d' % int(second), 'steps': steps})
     # a long history of many distinct tiny configurations with early ones rebuilt again and again
     # (a cache that forgets, evicts or re-uses entries must still be transparent)
     def tiny(i):
